@@ -112,6 +112,7 @@ func runProperty(def *PropertyDef, tier, root, verif, only, mutant string, seed 
 			return 3
 		}
 	}
+	currentOverlay = overlay
 	p, err := loadProgram(root, overlay)
 	if err != nil {
 		fmt.Fprintf(os.Stderr, "cannot load program: %v\n", err)
